@@ -22,7 +22,7 @@ def check(ctx):
   r4(ctx)
   from . import c12
   ctx.rule('C12.R5', 'shared with C12: a queued frame is written only if _HandleTimeout reported it live (otherwise its tag was already returned to the pool)')
-  c12.r5(ctx)
+  c12.r5(ctx, backpressure=False)    # the back-pressure clause concerns transmission after TimeoutError (C12), not tag reuse
 
 
 def r1(ctx):
